@@ -1888,7 +1888,49 @@ fn main() {
 	}
 
 	// numbers of worlds (short) / plan pairs (long); each gives 2-3 runs
-	let n_short: u64 = run.tier.pick(128, 1200);
+	// --replay FILE: execute only the run named in the replay file (same seeds), a few times, since the
+	// schedule is perturbed, not replayed
+	if let Some(path) = run.replay.clone() {
+		let v: Value = std::fs::read_to_string(&path).ok().and_then(|t| serde_json::from_str(&t).ok()).unwrap_or(Value::Null);
+		let case = if v["case"]["first"].is_object() { v["case"]["first"].clone() } else { v["case"].clone() };
+		let long = case["world"].as_str() == Some("long") || case["long"].as_bool() == Some(true);
+		let k = case["k"].as_u64().unwrap_or(0);
+		let n_long_worlds: usize = run.tier.pick(1, 4);
+		let mut extra: Vec<String> = vec![
+			"--phase".into(), if long { "long" } else { "short" }.into(), "--n".into(), (k + 1).to_string(),
+			"--only-run".into(), k.to_string(), "--deadline".into(), "100000".into(),
+		];
+		if long {
+			let j = (k as usize) % n_long_worlds;
+			if let Err(e) = build_long_world_files(mix(run.seed, 0x1096, j as u64), &dir, j) {
+				run.inconclusive(&format!("long world could not be built: {}", e));
+			}
+			extra.extend(["--dir".to_string(), dir.clone(), "--worlds".to_string(), n_long_worlds.to_string()]);
+		}
+		for attempt in 0..5 {
+			let res = run.spawn_workers(1, &extra, 900);
+			if let Some(h) = res.get(0).map(|r| r["extras"]["hang"].clone()).filter(|h| !h.is_null()) {
+				run.count("hangs_in_replay", 1);
+				if run.counter("hangs_in_replay") >= 2 {
+					run.violation(
+						&format!("C17;world={};clause=deadlock", if long { "long" } else { "short" }),
+						"no thread made progress for 60 s in two executions of the replayed run",
+						json!({"second": h, "k": k}),
+					);
+					break;
+				}
+			}
+			if run.n_violations() > 0 {
+				break;
+			}
+			run.count("replay_attempts", 1);
+			let _ = attempt;
+		}
+		drop(sc);
+		run.finish();
+	}
+
+	let n_short: u64 = run.tier.pick(96, 1200);
 	let n_long: u64 = run.tier.pick(24, 192);
 	let n_long_worlds: usize = run.tier.pick(1, 4);
 	let phase_deadline: f64 = run.tier.pick(60.0, 400.0);
@@ -1976,26 +2018,30 @@ fn main() {
 	drop(sc);
 
 	let c = |n: &str| run.counter(n);
-	run.require("runs_completed", c("runs_completed"), run.tier.pick(56, 900));
-	run.require("runs.long", c("runs.long"), run.tier.pick(8, 80));
-	run.require("runs_with_end_state_equal_to_reference", c("runs_with_end_state_equal_to_reference"), run.tier.pick(56, 900));
-	run.require("head_move_events_checked", c("head_move_events_checked"), run.tier.pick(300, 5000));
-	run.require("header_head_move_events_checked", c("header_head_move_events_checked"), run.tier.pick(300, 5000));
-	run.require("runs_where_several_threads_moved_the_head", c("runs_where_several_threads_moved_the_head"), run.tier.pick(30, 500));
-	run.require("reorg_callbacks", c("reorg_callbacks"), run.tier.pick(30, 500));
-	run.require("block.orphan", c("block.orphan"), run.tier.pick(100, 1500));
-	run.require("concurrent_duplicate_deliveries", c("concurrent_duplicate_deliveries"), run.tier.pick(100, 1500));
-	run.require("locked_views_consistent", c("locked_views_consistent"), run.tier.pick(2000, 30000));
-	run.require("locked_views_of_intermediate_heads", c("locked_views_of_intermediate_heads"), run.tier.pick(300, 5000));
-	run.require("head_changes_observed_by_readers", c("head_changes_observed_by_readers"), run.tier.pick(200, 3000));
-	run.require("template_roots_checked", c("template_roots_checked"), run.tier.pick(1000, 15000));
-	run.require("get_unspent.some", c("get_unspent.some"), run.tier.pick(1000, 15000));
-	run.require("validate_fast.ok", c("validate_fast.ok"), run.tier.pick(50, 800));
-	run.require("effective_compactions_during_runs", c("effective_compactions_during_runs"), run.tier.pick(6, 60));
-	run.require("segmenter.ok", c("segmenter.ok"), run.tier.pick(50, 500));
-	run.require("segment.roots_checked", c("segment.roots_checked"), run.tier.pick(20, 200));
-	run.require("sched_points_perturbed", c("sched_points_perturbed"), run.tier.pick(2000, 30000));
-	run.require("same_plan_other_schedule_gave_other_interleaving", c("same_plan_other_schedule_gave_other_interleaving"), run.tier.pick(5, 80));
-	run.require("final_full_validation_ok", c("final_full_validation_ok"), run.tier.pick(56, 900));
+	let req = |name: &str, q: u64, t: u64| run.require(name, c(name), run.tier.pick(q, t));
+	req("runs_completed", 200, 2300);
+	req("runs.long", 40, 320);
+	req("runs_with_end_state_equal_to_reference", 200, 2300);
+	req("final_full_validation_ok", 200, 2300);
+	req("head_move_events_checked", 1000, 10000);
+	req("header_head_move_events_checked", 600, 6000);
+	req("runs_where_several_threads_moved_the_head", 180, 2000);
+	req("reorg_callbacks", 150, 1500);
+	req("block.orphan", 500, 5000);
+	req("concurrent_duplicate_deliveries", 2000, 20000);
+	req("locked_views_consistent", 2500, 25000);
+	req("locked_views_of_intermediate_heads", 1000, 10000);
+	req("head_changes_observed_by_readers", 800, 8000);
+	req("template_roots_checked", 3000, 30000);
+	req("template_roots_checked_with_tx", 400, 4000);
+	req("get_unspent.some", 1000, 10000);
+	req("validate_tx.ok", 300, 3000);
+	req("header_by_height.ok", 1000, 10000);
+	req("validate_fast.ok", 150, 1500);
+	req("effective_compactions_during_runs", 15, 120);
+	req("segmenter.ok", 600, 5000);
+	req("segment.roots_checked", 500, 4000);
+	req("sched_points_perturbed", 10000, 100000);
+	req("same_plan_other_schedule_gave_other_interleaving", 10, 100);
 	run.finish();
 }
